@@ -322,20 +322,21 @@ class Step(object):
 
 class Config(object):
     def __init__(self, usage=True, blur=None, allow_list=True, motd=None, advertise=None,
-                 signal_error=None):
+                 signal_error=None, log_fd=False):
         self.usage = usage
         self.blur = blur
         self.allow_list = allow_list
         self.motd = motd
         self.advertise = advertise
         self.signal_error = signal_error
+        self.log_fd = log_fd          # --log-fd=<write end of a pipe whose reader has gone away>
 
     def key(self):
-        return (self.usage, self.blur, self.allow_list, self.motd, self.advertise, self.signal_error)
+        return (self.usage, self.blur, self.allow_list, self.motd, self.advertise, self.signal_error, self.log_fd)
 
     def to_json(self):
         return {"usage": self.usage, "blur": self.blur, "allow_list": self.allow_list,
-                "motd": self.motd, "advertise": self.advertise, "signal_error": self.signal_error}
+                "motd": self.motd, "advertise": self.advertise, "signal_error": self.signal_error, "log_fd": self.log_fd}
 
     @classmethod
     def from_json(cls, d):
@@ -503,6 +504,11 @@ class World(object):
             a.append("--advertise-version=" + self.cfg.advertise)
         if self.cfg.signal_error is not None:
             a.append("--signal-error=" + self.cfg.signal_error)
+        if getattr(self.cfg, "log_fd", False):
+            # the operator's log consumer has exited: every write to the descriptor fails with EPIPE
+            r, w = os.pipe()
+            os.close(r)
+            a.append("--log-fd=%d" % w)
         return a
 
     def start(self, start_timer=True):
@@ -765,6 +771,8 @@ class World(object):
             # autobahn's own precondition is kept: sending on a connection that is not OPEN (e.g. one whose
             # closing handshake has begun) raises Disconnected - see begin_close()
             p.state = p.STATE_OPEN
+            p.droppedByMe = False       # autobahn: True when the server itself tore the TCP connection down
+            p.wasClean = False
 
             def _send_message(payload, isBinary=False, **kw):
                 if p.state != p.STATE_OPEN:
@@ -819,18 +827,57 @@ class World(object):
         self._end(st)
         return st
 
+    def _close_args(self, conn):
+        """What autobahn passes to onClose: after a closing handshake (wasClean) the peer's close code, which is None
+        for an empty Close frame, and its reason; after an abrupt loss of the TCP connection wasClean=False, 1006."""
+        k = int(hashlib.sha256(repr((self.seed, conn.name, len(self.steps))).encode()).hexdigest()[:6], 16)
+        if conn.closing or k % 4 == 0:
+            code = [1000, None, 1001, 3000, 1000][k // 4 % 5]
+            return (True, code, [None, "", "bye", None][k // 20 % 4] if code is not None else None)
+        if k % 3 == 1:
+            # the server gave up on a half-open connection (keep-alive ping timeout): it dropped the TCP connection itself
+            conn.p.droppedByMe = True
+            return (False, 1006, "connection was closed uncleanly (WebSocket ping timeout (peer did not respond with pong in time))")
+        return (False, 1006, "connection was closed uncleanly (peer dropped the TCP connection without previous WebSocket closing handshake)")
+
     def drop(self, name):
         conn = self.conns[name]
         st = self._begin("drop", name)
         if conn.alive:
             try:
                 conn.p.state = conn.p.STATE_CLOSED
-                conn.p.onClose(True, 1000, "")
+                args = self._close_args(conn)
+                conn.p.wasClean = args[0]
+                st.extra["onClose"] = args[:2]
+                conn.p.onClose(*args)
                 self._pump()
             except Exception as e:
                 st.exc = "%s: %s" % (type(e).__name__, e)
                 st.tb = traceback.format_exc()
             conn.alive = False
+        self._end(st)
+        return st
+
+    def half_connection(self, name=None):
+        """A TCP connection to the websocket port that never completes the handshake (a port scanner, a plain HTTP GET of
+        /v1, a load balancer's health check) and goes away: autobahn calls onClose on a protocol that never saw onOpen."""
+        self.nconn += 1
+        name = name or ("h%d" % self.nconn)
+        conn = Conn(self, name)
+        st = self._begin("halfconn", name)
+        try:
+            p = self.factory.buildProtocol(None)
+            p.factory = self.factory
+            conn.p = p
+            p.sendMessage = lambda payload, isBinary=False, **kw: self._on_frame(conn, payload, isBinary)
+            p.transport = FakeTransport(conn)
+            self.conns[name] = conn
+            p.state = p.STATE_CLOSED
+            p.onClose(False, 1006, "connection was closed uncleanly (peer dropped the TCP connection without previous WebSocket opening handshake)")
+            self._pump()
+        except Exception as e:
+            st.exc = "%s: %s" % (type(e).__name__, e)
+            st.tb = traceback.format_exc()
         self._end(st)
         return st
 
